@@ -953,8 +953,8 @@ class UniformGrid(_HyperRectangleGrid):
                 " is a diagonal matrix."
             )
 
-        # Calculate step-size of the cube.
-        step_sizes = np.array([np.linalg.norm(axis) for axis in self.axes])
+        # Calculate (signed) step-size of the cube; the axes matrix is diagonal here.
+        step_sizes = np.diagonal(self.axes)
         coord = np.array([(point[i] - self.origin[i]) / step_sizes[i] for i in range(self.ndim)])
 
         if which == "origin":
@@ -966,8 +966,9 @@ class UniformGrid(_HyperRectangleGrid):
         else:
             raise ValueError("`which` parameter was not the standard options.")
 
-        # Convert indices (i, j, k) into index.
-        index = self.coordinates_to_index(coord)
+        # Stay inside the grid and convert indices (i, j, k) into index.
+        coord = np.clip(coord, 0, np.asarray(self.shape) - 1).astype(int)
+        index = int(self.coordinates_to_index(coord))
 
         return index
 
